@@ -436,7 +436,9 @@ class Interp:
     def import_from(self, module, name, level, current):
         if level:
             base = current.split(".")
-            base = base[: len(base) - level]
+            is_pkg = current in self.source.modules and self.source.modules[current][0].endswith("__init__.py")
+            drop = level - 1 if is_pkg else level
+            base = base[: len(base) - drop]
             module = ".".join(base + ([module] if module else []))
         if module == "flowjax" or module.startswith("flowjax."):
             full = f"{module}.{name}"
